@@ -32,7 +32,7 @@ def make_scenario(hist: list[dict], rng: random.Random, idx: int, *, kinds: tupl
     loop = "uvloop" if (idx // len(kinds)) % 2 else "asyncio"
     bufsize = rng.choice([4096, 8192, 16384, 65536, 0])        # 0: kernel defaults (autotuning)
     base = bufsize or 65536
-    unit = rng.choice([1, 3, 257, 4096, base // 2, base, 2 * base, 4 * base])
+    unit = min(65536, rng.choice([1, 3, 257, 4096, base // 2, base, 2 * base, 4 * base]))
     mbs = [max(1, int(unit * f)) for f in rng.choice([(1, 2, 3), (0.5, 1, 4), (1, 1, 1)])]
     if rng.random() < 0.4:
         mbs = [rng.choice([1, 2, 7, 100, 4096, 65536, 1 << 20]) for _ in range(3)]
@@ -116,6 +116,8 @@ class Bench:
         self.st: dict[str, Any] = {}
         self.closed = {"A": False, "B": False}
         self.eofd = {"A": False, "B": False}
+        self.cut = {"A": False, "B": False}   # a send ended abnormally: offsets after it are undefined
+        self.undef = {"A": False, "B": False}
         self.inprog: dict[tuple, Any] = {}   # (side, op, t) -> cancel scope
         self.timed_out: set[tuple] = set()
         self.maxunread = {"A": 0, "B": 0}
@@ -149,7 +151,7 @@ class Bench:
                     raise
                 return r
             off, match = locate(w, data, self.recvd[w], self.claimed[w])
-            if off == self.recvd[w] and match:
+            if self.undef[w] or (off == self.recvd[w] and match):
                 self.recvd[w] += len(data)
             self.emit(ev="rend", s=s, t=t, res="ok", off=off, len=len(data), match=match)
             del self.inprog[key]
@@ -165,6 +167,7 @@ class Bench:
             self.inprog[key] = scope
             payload = pattern_fast(s, self.claimed[s], n)
             self.claimed[s] += n
+            self.undef[s] = self.undef[s] or self.cut[s]
             self.emit(ev="sstart", s=s, t=t, n=n)
             try:
                 await self.st[s].send(payload)
@@ -177,6 +180,8 @@ class Bench:
                     self.notes.append(f"send {s}{t}: {exc!r}")
                 if r == "busy":
                     self.claimed[s] -= n
+                else:
+                    self.cut[s] = True
                 self.emit(ev="send", s=s, t=t, res=r)
                 del self.inprog[key]
                 if r in ("cancelled", "timeout"):
@@ -185,6 +190,8 @@ class Bench:
             if not self.closed[s]:
                 self.accepted[s] += n
                 self.maxunread[s] = max(self.maxunread[s], self.accepted[s] - self.recvd[s])
+            else:
+                self.cut[s] = True
             self.emit(ev="send", s=s, t=t, res="ok")
             del self.inprog[key]
             return "ok"
@@ -307,7 +314,7 @@ async def _main(scn: dict) -> dict:
             if b.closed["B"]:
                 continue
             if what == "data":
-                if b.eofd["B"]:
+                if b.eofd["B"] or b.cut["B"]:
                     continue
                 r = await b.send("B", 1, k * unit)
                 if r != "ok":
@@ -397,7 +404,7 @@ async def _main(scn: dict) -> dict:
                         ops.start_soon(a_wrapped, t, "recv", mbs[(k - 1) % 3])
                         await yield_n(1)
                 elif a == "scall":
-                    if await wait_free(t) and not b.eofd["A"] and b.busy("A", "send") < 2:
+                    if await wait_free(t) and not b.eofd["A"] and not b.cut["A"] and b.busy("A", "send") < 2:
                         ops.start_soon(a_wrapped, t, "send", k * unit)
                         await yield_n(1)
                 elif a == "ccall":
